@@ -85,6 +85,13 @@ def make_cases(tier, profile):
     for q in qs:
         cases.append(dict(name=q + ' [secret #x]', line=q, call='product', judges=['no_panic', 'indistinguishable'], hide=hide_x, what='the secret channel #x',
                           spec=dict(base, sym_modes=False), partial0=dict(p_secret, **quick_fix), split=['mem_bob_#x', 'mem_carol_#x', 'exists_&y'] + ([] if tier == 'quick' else ['mem_bob_&y', 'founder_bob_#x'])))
+    # ... whose members may be server operators, away or invisible (user modes of the listed users symbolic, operators configured)
+    umfix = {f'umode_{m}_alice': False for m in ('oper', 'local_oper', 'wallops', 'invisible', 'registered')}
+    umfix.update({f'umode_{m}_{n}': False for n in ('bob', 'carol') for m in ('wallops', 'registered', 'local_oper')})
+    for q in (['WHOIS bob', 'WHOIS b*', 'WHO bob', 'WHO *'] if tier == 'quick' else ['WHOIS bob', 'WHOIS b*', 'WHOIS bob,carol', 'WHO bob', 'WHO *', 'WHO b*', 'NAMES', 'LIST']):
+        cases.append(dict(name=q + ' [secret #x, operators among its members]', line=q, call='product', judges=['no_panic', 'indistinguishable'], hide=hide_x, what='the secret channel #x',
+                          spec=dict(base, sym_modes=True, sym_away=True, operators=[('opname', 'goodpw', None)]), partial0=dict(p_secret, **quick_fix, **umfix),
+                          split=['mem_bob_#x', 'mem_carol_#x', 'exists_&y', 'umode_oper_bob']))
     # an invisible user sharing no channel with the observer
     hide_bob = {'reg_bob': False, 'mem_bob_#x': False, 'mem_bob_&y': False}
     p_inv = {'umode_invisible_bob': True, 'reg_bob': True}
